@@ -1,4 +1,4 @@
-CONSTANTS N = 8  NOrig = 5  NLoc = 1  MaxLevel = 999  Typed = TRUE  MaxSet = 3  NBlk = 2
+CONSTANTS N = 8  NOrig = 5  NLoc = 1  MaxLevel = 999  Typed = TRUE  MaxSet = 3  NBlk = 2  BlkGrid = FALSE
 SPECIFICATION TSpec
 CONSTRAINT Progress
 POSTCONDITION Report
